@@ -4,6 +4,7 @@ Property theorems only (helper lemmas live in Proofs/FrameLemmas, Proofs/Interle
 -/
 import ExecnetVerif.Proofs.FrameLemmas
 import ExecnetVerif.Proofs.InterleaveLemmas
+import ExecnetVerif.Proofs.SendDeferLemmas
 import ExecnetVerif.Generated.Tables
 namespace ExecnetVerif
 
@@ -23,6 +24,25 @@ theorem C08_stream (ms : List Msg) (h : wfMsgs ms) :
     decodeStream (ms.flatMap encodeMsg) = (ms, .eof) := by
   have := decodeStream_encodeAll_append ms [] h
   simpa [encodeAll, decodeStream_nil] using this
+
+/-- **C08 (re-entrant sends, fix D30).** A send may be re-entered while its frame is being written (a finaliser run by
+the garbage collector sends CLOSE / LAST_MESSAGE from the writing thread itself), to any depth (`SendDefer.SendTree`).
+`_send` defers such messages and writes them behind the frame in progress (`SendDefer.drain` is its loop): the peer
+decodes whole messages only, the message of the outer call first, and altogether exactly the messages that anybody
+attempted to send — each once, none lost, none torn. -/
+theorem C08_reentrant_sends (f : Msg) (ks : List (SendDefer.SendTree Msg))
+    (h : wfMsgs (SendDefer.sendOne (.node f ks))) :
+    decodeStream ((SendDefer.sendOne (.node f ks)).flatMap encodeMsg) = (SendDefer.sendOne (.node f ks), .eof) ∧
+    (SendDefer.sendOne (.node f ks)).head? = some f ∧
+    (SendDefer.sendOne (.node f ks)).Perm (SendDefer.SendTree.frames (.node f ks)) := by
+  refine ⟨C08_stream _ h, ?_, ?_⟩
+  · simp [SendDefer.sendOne, SendDefer.drain]
+  · have := SendDefer.drain_perm [SendDefer.SendTree.node f ks]
+    simpa [SendDefer.sendOne, SendDefer.SendTree.framesList] using this
+
+/-- a finaliser fires while the frame of `a` is written and sends `b`; while `b` is written later another one sends `c` -/
+example : SendDefer.sendOne (.node 1 [.node 2 [.node 4 []], .node 3 []]) = [1, 2, 3, 4] := by
+  simp [SendDefer.sendOne, SendDefer.drain]
 
 /-- **C08 (chunking).** However the pipe or socket splits or coalesces the bytes — every low-level
 `read`/`recv` returning any non-empty part of what is available — the read-until-n loops of
@@ -109,6 +129,18 @@ theorem C08_pins :
        ("CHANNEL_DATA", 4), ("CHANNEL_CLOSE", 5), ("CHANNEL_CLOSE_ERROR", 6),
        ("CHANNEL_LAST_MESSAGE", 7)] ∧
     (∀ e ∈ Generated.messageTable, inI8 e.2.1) := by
+  decide
+
+/-- `BaseGateway._send`, statement by statement with the lock each runs under: the re-entrant call is recognised and deferred
+under the send lock, the frame and then the deferred frames are written under it (`SendDefer.drain` transcribes this loop) -/
+theorem C08_send_pinned :
+    Generated.lockScopes.lookup "BaseGateway._send" = some
+      [("-", "message = Message(msgcode, channelid, data)"), ("self._sendlock", "if self._sending"),
+       ("self._sendlock", "self._send_deferred.append(message)"), ("self._sendlock", "return"),
+       ("self._sendlock", "self._sending = True"), ("self._sendlock", "message.to_io(self._io)"),
+       ("self._sendlock", "loop"), ("self._sendlock", "self._send_deferred.pop(0).to_io(self._io)"),
+       ("self._sendlock", "finally"), ("self._sendlock", "self._sending = False"),
+       ("-", "except (OSError, ValueError)"), ("-", "raise OSError")] := by
   decide
 
 /-! ### non-vacuity -/
